@@ -235,7 +235,7 @@ def bounded_runs(reg):
 
 def check(reg, tier):
     from contracts import c10
-    for nxi in ((1, 2, 3) if tier == "thorough" else (1, 2)):
+    for nxi in (1, 2, 3):          # 3: the first step differs from the other steps (non-uniform grids)
         hankel_contract(reg, nxi)
         apply_contract(reg, nxi)
     adopt(reg, c10._calc_theory_contract, "C10", only="calc_theory")
